@@ -25,6 +25,7 @@ import SpoxModel.Props.C01Build
 #print axioms C01.needed_part_decides_values_checked
 #print axioms C01.other_request_same_values
 #print axioms C01.more_outputs_irrelevant
+#print axioms C01.default_and_drop_builds_agree
 #print axioms C01Build.built_model_computes_dataflow
 #print axioms C01Build.built_models_written_differently_same_values
 #print axioms C01Build.built_model_independent_of_unused_inputs
